@@ -292,6 +292,7 @@ pub fn main(args: &[String]) {
             "gen" => crate::replay_gen::replay_gen(&doc, &mut t),
             "generr" => crate::replay_gen::replay_generr(&doc, &mut t),
             "prop" => crate::replay_gen::replay_prop(&doc, &mut t),
+            "version" => crate::replay_gen::replay_version(&doc, &mut t),
             "csv" => crate::replay_csv::replay_csv(&doc, &mut t),
             _ => crate::replay_str::replay(&ctx, &doc, &mut t),
         }
